@@ -975,6 +975,9 @@ def global_state():
                 continue
             if isinstance(v, (dict, list, set)):
                 out["%s.%s" % (mname, k)] = _freeze(v)
+            elif _is_vsg_instance(v):
+                # a module-level object of a class the product defines (a cache, a parameter block ...): its attributes are process state too
+                out["%s.%s" % (mname, k)] = _freeze(v)
             elif isinstance(v, type) and getattr(v, "__module__", None) == mname:
                 for ak, av in list(vars(v).items()):
                     if ak.startswith("__"):
@@ -984,9 +987,17 @@ def global_state():
     return out
 
 
+def _is_vsg_instance(v):
+    c = type(v)
+    m = getattr(c, "__module__", "") or ""
+    return (m == "vsg" or m.startswith("vsg.")) and not isinstance(v, (type, types.FunctionType, types.ModuleType)) and hasattr(v, "__dict__")
+
+
 def _freeze(v, depth=0):
     if depth > 6:
         return "<deep>"
+    if depth <= 3 and _is_vsg_instance(v) and not isinstance(v, parser.item):
+        return ("obj", type(v).__name__, tuple((k, _freeze(x, depth + 1)) for k, x in sorted(vars(v).items())))
     if isinstance(v, dict):
         return ("dict", tuple((repr(k), _freeze(x, depth + 1)) for k, x in v.items()))
     if isinstance(v, (list, tuple)):
@@ -1026,6 +1037,11 @@ def _has_sym(v):
     return False
 
 
+_WARM = {}
+WARM_LINES = ["library ieee;", "  use ieee.std_logic_1164.all;", "", "entity warm is", "  port (", "    a : in    std_logic", "  );", "end entity warm;", "",
+              "architecture rtl of warm is", "", "begin", "", "  b <= a;", "", "end architecture rtl;", ""]
+
+
 def purity(eng, p):
     """one inductive step: processing a file leaves the process-level state of vsg.* as it found it"""
     fixture, window, confname = p["fixture"], p.get("window"), p.get("conf", "default")
@@ -1033,6 +1049,17 @@ def purity(eng, p):
     slines = sym_lines(eng, lines, tuple(window) if window else None)
     conf = get_conf2(confname)
     base_roles(fixture)  # warm the harness's own cache outside the measured region
+    if not _WARM.get(confname):
+        # lazily built caches of the product (built on first use, constant afterwards) are not state in the sense of C15: one complete
+        # run on a small file under this configuration comes first, the measured step is a later file of the same process
+        _WARM[confname] = True
+        o0 = vhdlFile_pkg.vhdlFile(list(WARM_LINES), sFilename="warm.vhd", configuration=conf)
+        o0.set_indent_map(conf.dIndent)
+        r0 = rule_list.rule_list(o0, conf.severity_list)
+        r0.configure(conf)
+        r0.fix()
+        r0.clear_violations()
+        r0.check_rules(bAllPhases=True)
     s0 = global_state()
     oFile = vhdlFile_pkg.vhdlFile(slines, sFilename=fixture, configuration=conf)
     oFile.set_indent_map(conf.dIndent)
